@@ -507,3 +507,11 @@ func verifC34KnownAssignParen(line []rune) bool {
 	}
 	return false
 }
+
+// verifC34KnownLines: one line per open finding of the gate (so that every tier re-confirms it),
+// plus one unproblematic line.
+var verifC34KnownLines = []string{"out x; out ", "rm=(); out ", "'';(", "=out;(", "rm(out); out "}
+
+func VerifC34KnownLines() {
+	verifC34Check([]rune(verifC34KnownLines[rt.Choice("line", len(verifC34KnownLines))]))
+}
